@@ -63,7 +63,10 @@ var (
 // typedNilToks: store tokens that stand for typed nil values (a nil pointer / a nil map boxed in an `any`): values like any
 // other — what was stored is what comes back, type included
 var typedNilToks = map[int]any{37: (*int)(nil), 38: map[string]any(nil), 39: (*pair)(nil),
-	35: []int{1, 2}, 36: []string{"a", "b"}} // … and two TYPED slices (told apart from a converted []any copy by identity)
+	35: []int{1, 2}, 36: []string{"a", "b"}, // … and two TYPED slices (told apart from a converted []any copy by identity)
+	// values of the library's own Result type (non-error, one holding nil, one holding a Result): values like any other — the
+	// store keeps the Result, not what it carries
+	32: flyt.NewResult(flyt.NewResult("x")), 33: flyt.NewResult(42), 34: flyt.NewResult(nil)}
 
 func init() {
 	for n := 1; n <= storeMaxTok; n++ {
